@@ -163,7 +163,10 @@ RetFail == /\ Line("ret") /\ ~Tr[l].ok /\ Consume
 RetOk == /\ Line("ret") /\ Tr[l].ok /\ Consume
          /\ HasTop(Me) /\ Top(Me).op = Tr[l].op /\ Top(Me).done
          /\ pend' = [pend EXCEPT ![Me] = SubSeq(@, 1, Len(@) - 1)]
-         /\ banned' = banned \cup (Top(Me).removed \ PendingReg)
+         \* (a pair that is registered again at this moment - by a registering call that took effect after this removal did
+         \* and has already returned - is not banned: its callbacks belong to the new registration)
+         /\ banned' = banned \cup ((Top(Me).removed \ PendingReg)
+                                   \ UNION {{<<h, w>> : h \in reg[w]} : w \in DOMAIN reg})
          /\ deadEm' = deadEm \cup Top(Me).ems
          /\ stopRet' = (stopRet \/ Tr[l].op = "stop")
          /\ UNCHANGED <<reg, sched, emOf, started, stopCalled, qp, Q, cur, viol>>
